@@ -3,6 +3,7 @@
 #include "api.hpp"
 #include "vmutil.hpp"
 #include "cases.hpp"
+#include "dataset.hpp"
 #include <thread>
 #include <mutex>
 #include <array>
@@ -23,7 +24,24 @@ struct VmCfg {
 	std::vector<Digest> out[2]; // [v2][input]
 };
 
-void initDatasetThreaded(randomx_dataset* ds, randomx_cache* c, unsigned threads, Rng& rng) {
+// Items whose value depends on how the index range was split (around every cut point) plus a random sample must equal
+// the light-mode item: a fast-mode VM reading a wrong item disagrees with every light-mode VM for the inputs that touch it.
+uint64_t checkDatasetAgainstLight(randomx_dataset* ds, randomx_cache* c, const std::vector<unsigned long>& cut, Rng& rng, const std::string& keyHex, const char* how) {
+	const uint8_t* mem = (const uint8_t*)randomx_get_dataset_memory(ds);
+	const unsigned long total = randomx_dataset_item_count();
+	std::vector<unsigned long> items;
+	for (unsigned long cp : cut) for (long d = -8; d < 8; ++d) { long it = (long)cp + d; if (it >= 0 && (unsigned long)it < total) items.push_back((unsigned long)it); }
+	for (int i = 0; i < 4000; ++i) items.push_back((unsigned long)rng.below(total));
+	uint64_t n = 0;
+	for (unsigned long it : items) {
+		uint8_t light[64]; { ip::Api s("initDatasetItem"); randomx::initDatasetItem(c, light, it); }
+		++n;
+		if (memcmp(light, mem + it * 64, 64)) { R.violation(std::string("C01:differential:fast-mode-dataset-item-differs-from-light-mode-item:") + how, "{\"key\":\"" + keyHex + "\",\"item\":" + std::to_string(it) + "}"); break; }
+	}
+	return n;
+}
+
+std::vector<unsigned long> initDatasetThreaded(randomx_dataset* ds, randomx_cache* c, unsigned threads, Rng& rng) {
 	const unsigned long total = randomx_dataset_item_count();
 	std::vector<std::thread> th;
 	// uneven split with odd boundaries (count % 4 != 0) - the ranges the property quantifies over
@@ -32,6 +50,7 @@ void initDatasetThreaded(randomx_dataset* ds, randomx_cache* c, unsigned threads
 	cut.push_back(total);
 	for (unsigned i = 0; i < threads; ++i) th.emplace_back([=] { api::initDataset(ds, c, cut[i], cut[i + 1] - cut[i]); });
 	for (auto& t : th) t.join();
+	return cut;
 }
 }
 
@@ -45,7 +64,7 @@ RXV_SUBCOMMAND(c01) {
 	ip::setGarbageSeed(args.seed * 13 + 5);
 	ip::setHugePages(1); // LARGE_PAGES requests succeed with ordinary pages (there are no huge pages here)
 	const randomx_flags hw = api::getFlags();
-	for (const char* f : { "triples_compared", "configs_per_triple_min", "light_vms", "fast_vms", "caches", "datasets_compiled_init", "batch_digests", "v2_switched_with_setFlagV2", "v2_created_with_flag", "secure_without_jit", "large_page_vms" }) R.floorKey(f);
+	for (const char* f : { "triples_compared", "configs_per_triple_min", "light_vms", "fast_vms", "caches", "datasets_compiled_init", "batch_digests", "v2_switched_with_setFlagV2", "v2_created_with_flag", "secure_without_jit", "large_page_vms", "dataset_items_checked_against_light_mode" }) R.floorKey(f);
 	if (thorough) R.floorKey("datasets_interpreter_init");
 
 	for (uint64_t ki = 0; ki < nKeys; ++ki) {
@@ -75,12 +94,14 @@ RXV_SUBCOMMAND(c01) {
 		for (size_t i = 0; i < caches.size(); ++i) { if ((caches[i].flags & RANDOMX_FLAG_JIT) && jitCache < 0) jitCache = (int)i; if (!(caches[i].flags & RANDOMX_FLAG_JIT)) defCache = (int)i; }
 		{
 			randomx_dataset* d = api::allocDataset(RANDOMX_FLAG_DEFAULT); if (!d) R.harnessFail("alloc_dataset");
-			initDatasetThreaded(d, caches[jitCache].c, threads, rng);
+			std::vector<unsigned long> cut = initDatasetThreaded(d, caches[jitCache].c, threads, rng);
+			R.count("dataset_items_checked_against_light_mode", checkDatasetAgainstLight(d, caches[defCache].c, cut, rng, keyHex, "compiled-init"));
 			datasets.push_back(d); dsNames.push_back("compiled-init"); R.count("datasets_compiled_init");
 		}
 		if (thorough) {
 			randomx_dataset* d = api::allocDataset(RANDOMX_FLAG_LARGE_PAGES); if (!d) R.harnessFail("alloc_dataset large pages");
-			initDatasetThreaded(d, caches[defCache].c, threads, rng);
+			std::vector<unsigned long> cut = initDatasetThreaded(d, caches[defCache].c, threads, rng);
+			R.count("dataset_items_checked_against_light_mode", checkDatasetAgainstLight(d, caches[defCache].c, cut, rng, keyHex, "interpreter-init"));
 			datasets.push_back(d); dsNames.push_back("interpreter-init"); R.count("datasets_interpreter_init");
 			if (memcmp(randomx_get_dataset_memory(datasets[0]), randomx_get_dataset_memory(d), kDatasetBytes)) R.violation("C01:differential:dataset-compiled-vs-interpreter-init", "{\"key\":\"" + keyHex + "\"}");
 		}
